@@ -1457,6 +1457,77 @@ fn gen_case(rng: &mut Rng, n: usize, tier: &str, scratch: &std::path::Path, out:
                     ops.push(Op::Select(rng.below(2) as usize));
                     ops.push(Op::Get(1));
                 }
+                _ if !selecting && world.chain.is_some() && rng.chance(1, 6) => {
+                    // a user phrase added (Ctrl-digit, or Shift-arrows + Enter) over a range that ENDS INSIDE a converted
+                    // two-syllable word; the buffer is committed, the same syllables are typed again and the alternatives
+                    // cycled: whatever was stored has one character per syllable, so the new conversion still tiles
+                    // (seeded change C03-F)
+                    let ch = world.chain.unwrap();
+                    let mut o = opts_vec(&ed.editor_options());
+                    o[8] = 0;
+                    o[10] = 0;
+                    o[12] = 1;
+                    ops.push(Op::Opts(o));
+                    ops.push(Op::Engine(1));
+                    for i in ch {
+                        for k in &world.keys[i] {
+                            ops.push(key_op(*k, none));
+                        }
+                    }
+                    ops.push(key_op(Home, none));
+                    if rng.chance(1, 2) {
+                        ops.push(key_op(ALL_CODES[3], Modifiers { ctrl: true, ..none }));
+                    } else {
+                        for _ in 0..3 {
+                            ops.push(key_op(Right, Modifiers { shift: true, ..none }));
+                        }
+                        ops.push(key_op(Enter, none));
+                    }
+                    ops.push(Op::Get(1));
+                    ops.push(key_op(End, none));
+                    ops.push(key_op(Enter, none));
+                    for i in &ch[..3] {
+                        for k in &world.keys[*i] {
+                            ops.push(key_op(*k, none));
+                        }
+                    }
+                    ops.push(Op::Get(1));
+                    ops.push(key_op(Tab, none));
+                    ops.push(Op::Get(1));
+                    ops.push(key_op(Enter, none));
+                }
+                _ if !selecting && world.chain.is_some() && rng.chance(1, 5) => {
+                    // auto-shift after a choice made for ANOTHER range than the one the list was opened at: two
+                    // two-syllable words, the cursor inside the second one (or at its start), the list opened, `j`
+                    // moves the range to the first word, a candidate is chosen: the saved cursor comes back and moves
+                    // on by ONE position, staying inside the buffer; the next key acts there (seeded change C05-F)
+                    let ch = world.chain.unwrap();
+                    let mut o = opts_vec(&ed.editor_options());
+                    o[3] = 1;
+                    o[4] = rng.below(4) as u32 / 3;
+                    o[8] = 0;
+                    o[12] = 1 + rng.below(2) as u32;
+                    ops.push(Op::Opts(o));
+                    ops.push(Op::Engine(o[12] as u8));
+                    for i in ch {
+                        for k in &world.keys[i] {
+                            ops.push(key_op(*k, none));
+                        }
+                    }
+                    for _ in 0..(1 + rng.below(2)) {
+                        ops.push(key_op(Left, none));
+                    }
+                    ops.push(key_op(Down, none));
+                    for _ in 0..(1 + rng.below(2)) {
+                        ops.push(key_op(J, none));
+                    }
+                    ops.push(digit(rng));
+                    ops.push(Op::Get(1));
+                    ops.push(match rng.below(3) { 0 => key_op(Left, none), 1 => key_op(Del, none), _ => key_op(world.keys[ch[0]][0], none) });
+                    for k in &world.keys[ch[1]] {
+                        ops.push(key_op(*k, none));
+                    }
+                }
                 _ if !selecting && rng.chance(1, 5) => {
                     // a phrase list whose range is moved with j / k and that is left by a choice, Backspace or Up;
                     // afterwards symbols are inserted through the symbol table in the middle of the buffer (every
